@@ -114,11 +114,15 @@ def run(ctx):
     ):
         chk.rule(rid, txt)
     fn = {}
+    raw = {}
     for name in set(UNDIRECTED) | ALL_BLOCKS | set(COMPOSITION) | {"add_conjunctive_edges", "add_source_sink_edges"}:
         try:
-            fn[name] = repo.find_function(name)
+            raw[name] = repo.find_function(name)
         except AnalysisError:
             raise AnalysisError(f"graph building block {name} vanished")
+        # helper extractions are undone for the edge/node blocks; the builders'
+        # composition is judged on the original call list
+        fn[name] = raw[name] if name in COMPOSITION and name != "build_solved_disjunctive_graph" else ctx.norm.flat(raw[name])
 
     # ---------------------------------------------------------------- R16.a
     for name in UNDIRECTED:
@@ -209,7 +213,7 @@ def run(ctx):
 
     # ---------------------------------------------------------------- R16.c
     for bname, (must, mustnot) in COMPOSITION.items():
-        f = fn[bname]
+        f = raw[bname]
         called = []
         for n in own_nodes(f.node):
             if isinstance(n, ast.Call) and isinstance(n.func, ast.Name):
@@ -310,10 +314,10 @@ def _solved_pairs(ctx, sg, arc):
     loops = _enclosing_loops(sg, arc)
     a = ast.unparse(arc.args[0])
     b = ast.unparse(arc.args[1])
-    if len(loops) != 2 or not ast.unparse(loops[1].iter).endswith("schedule.schedule"):
+    if len(loops) != 2 or not ctx.norm.xtext(sg, loops[1].iter).endswith("schedule.schedule"):
         raise AnalysisError("build_solved_disjunctive_graph: machine-sequence loops not recognised")
     inner = loops[0]
-    it = ast.unparse(inner.iter).replace(" ", "")
+    it = ctx.norm.xtext(sg, inner.iter).replace(" ", "")
     defs = ctx.flow.defs(sg)
     ok = False
     if it == "enumerate(machine_schedule)":
@@ -366,6 +370,8 @@ def _node_ids(ctx):
     init, addn, addops = g.methods.get("__init__"), g.methods.get("add_node"), g.methods.get("add_operation_nodes")
     if None in (init, addn, addops):
         raise AnalysisError("JobShopGraph.__init__/add_node/add_operation_nodes vanished")
+    addn_raw = addn
+    addn, addops = ctx.norm.flat(addn), ctx.norm.flat(addops)
     # counter: initialised 0 in __init__, advanced by one only in add_node, after assignment
     ok = True
     for m in g.methods.values():
@@ -375,7 +381,7 @@ def _node_ids(ctx):
                     ok = False
                     chk.violation("R16.d", m, n, f"the node id counter is rebound by `{ast.unparse(n)}`: ids no longer start at 0 / are reused", loc=m.loc(n))
             elif isinstance(n, ast.AugAssign) and ast.unparse(n.target) == "self._next_node_id":
-                if not (m is addn and isinstance(n.op, ast.Add) and isinstance(n.value, ast.Constant) and n.value.value == 1):
+                if not (m is addn_raw and isinstance(n.op, ast.Add) and isinstance(n.value, ast.Constant) and n.value.value == 1):
                     ok = False
                     chk.violation("R16.d", m, n, f"the node id counter is changed by `{ast.unparse(n)}` outside add_node / not by one", loc=m.loc(n))
     assign = [n for n in own_nodes(addn.node) if isinstance(n, ast.Assign) and ast.unparse(n.targets[0]).endswith(".node_id")]
@@ -393,13 +399,24 @@ def _node_ids(ctx):
         ok = False
         chk.violation("R16.d", addn, gn[0] if gn else None, "the networkx node key is not the node id")
     # indexes: by job and by every eligible machine
-    idx_job = any(isinstance(n, ast.Call) and ast.unparse(n.func) == "self._nodes_by_job[operation.job_id].append" for n in own_nodes(addn.node))
+    node_param = addn_raw.params[1]
+    xt = lambda e: ctx.norm.xtext(addn, e)  # noqa: E731
+    idx_job = False
     idx_m = False
     for n in own_nodes(addn.node):
-        if isinstance(n, ast.For) and ast.unparse(n.iter) == "operation.machines":
-            v = n.target.id if isinstance(n.target, ast.Name) else None
-            if any(isinstance(x, ast.Call) and ast.unparse(x.func) == f"self._nodes_by_machine[{v}].append" for x in ast.walk(n)):
-                idx_m = True
+        if isinstance(n, ast.Call) and isinstance(n.func, ast.Attribute) and n.func.attr == "append" and isinstance(n.func.value, ast.Subscript):
+            tbl = ast.unparse(n.func.value.value)
+            if tbl == "self._nodes_by_job" and xt(n.func.value.slice).endswith("operation.job_id") and n.args and xt(n.args[0]) == node_param:
+                idx_job = True
+        if isinstance(n, ast.For) and xt(n.iter).endswith("operation.machines") and isinstance(n.target, ast.Name):
+            v = n.target.id
+            for x in ast.walk(n):
+                if (
+                    isinstance(x, ast.Call) and isinstance(x.func, ast.Attribute) and x.func.attr == "append"
+                    and isinstance(x.func.value, ast.Subscript) and ast.unparse(x.func.value.value) == "self._nodes_by_machine"
+                    and ast.unparse(x.func.value.slice) == v and x.args and xt(x.args[0]) == node_param
+                ):
+                    idx_m = True
     if not idx_job:
         ok = False
         chk.violation("R16.d", addn, None, "operation nodes are not indexed by job")
